@@ -9,6 +9,9 @@ def build_cli(rep):
     env = offline_env({'CARGO_TARGET_DIR': os.path.join(BUILD, 'cli-target')})
     cmd = ['cargo', 'build', '--offline', '--no-default-features', '--features', 'rust', '--bin', 'wit-bindgen']
     rep.checker_cmds.append('(cd %s && CARGO_TARGET_DIR=%s %s)' % (REPO, env['CARGO_TARGET_DIR'], ' '.join(cmd)))
+    exe = os.path.join(BUILD, 'cli-target/debug/wit-bindgen')
+    if os.path.exists(exe):
+        os.remove(exe)     # cargo re-links it; a stale binary from another tree must never be reused
     with target_lock('cli-target'):
         rc, out, err, secs, to = run(cmd, cwd=REPO, env=env, timeout=3600)
     if rc != 0:
